@@ -9,6 +9,7 @@ runs is the repository's; only names that resolve to C-level builtins are shadow
 """
 from __future__ import annotations
 
+import ast
 import builtins
 import functools
 import hashlib
@@ -16,6 +17,7 @@ import importlib
 import inspect
 import math
 import sys
+import textwrap
 import types
 
 import numpy as np
@@ -277,13 +279,282 @@ class SymSet:
         return SymSet(list(self.items) + list(o))
 
     def __and__(self, o):
+        o = _ss(o)
         return SymSet([x for x in self.items if x in o])
 
     def __sub__(self, o):
+        o = _ss(o)
         return SymSet([x for x in self.items if x not in o])
 
     def __eq__(self, o):
+        if not isinstance(o, (builtins.set, builtins.frozenset, SymSet)):
+            return False
+        o = _ss(o)
         return len(self) == len(o) and all(x in o for x in self.items)
+
+    def __ne__(self, o):
+        return not self.__eq__(o)
+
+    __hash__ = None
+
+
+    def issubset(self, o):
+        o = _ss(o)
+        return all(x in o for x in self.items)
+
+    def issuperset(self, o):
+        return all(x in self for x in o)
+
+    def union(self, *os):
+        out = SymSet(self.items)
+        for o in os:
+            for x in o:
+                out.add(x)
+        return out
+
+    def intersection(self, o):
+        return self & o
+
+    def difference(self, o):
+        return self - o
+
+    def discard(self, x):
+        self.items = [y for y in self.items if not (x is y or x == y)]
+
+    def remove(self, x):
+        if x not in self:
+            raise KeyError(x)
+        self.discard(x)
+
+    def update(self, o):
+        for x in o:
+            self.add(x)
+
+    def copy(self):
+        return SymSet(self.items)
+
+    def __le__(self, o):
+        return self.issubset(o)
+
+    def __ge__(self, o):
+        return self.issuperset(o)
+
+    def __rsub__(self, o):
+        return SymSet([x for x in o if x not in self])
+
+    def __ror__(self, o):
+        return SymSet(list(o) + list(self.items))
+
+    def __rand__(self, o):
+        return SymSet([x for x in o if x in self])
+
+
+def _ss(o):
+    return o if isinstance(o, SymSet) else SymSet(o)
+
+
+def _has_sym(v):
+    if isinstance(v, (SymInt, SymReal, SymBool, SymSlice)):
+        return True
+    if isinstance(v, (tuple, list)):
+        return any(_has_sym(u) for u in v)
+    return False
+
+
+class SymDict(dict):
+    """dict whose keys may contain symbolic values: such entries live in a side list and are
+    found by ``==`` (forking) instead of hashing (which would concretise).  Concrete keys use the
+    ordinary dict storage; a lookup scans both (a symbolic key may equal a concrete one)."""
+
+    def __init__(self, *a, **k):
+        dict.__init__(self)
+        self._sym = []  # [key, value] pairs with symbolic keys, insertion order
+        if a:
+            src = a[0]
+            for kk, vv in (src.items() if hasattr(src, "items") else src):
+                self[kk] = vv
+        for kk, vv in k.items():
+            self[kk] = vv
+
+    def _find(self, key):
+        """-> ('c', key) | ('s', index) | None"""
+        ksym = _has_sym(key)
+        if not ksym:
+            try:
+                if dict.__contains__(self, key):
+                    return ("c", key)
+            except TypeError:
+                pass
+        else:
+            for ck in dict.keys(self):
+                if type(ck) is type(key) or isinstance(ck, (int, float, tuple)):
+                    if ck == key:
+                        return ("c", ck)
+        for i, (sk, _v) in enumerate(self._sym):
+            if sk is key or sk == key:
+                return ("s", i)
+        return None
+
+    def __contains__(self, key):
+        return self._find(key) is not None
+
+    def __getitem__(self, key):
+        f = self._find(key)
+        if f is None:
+            raise KeyError(key)
+        return dict.__getitem__(self, f[1]) if f[0] == "c" else self._sym[f[1]][1]
+
+    def get(self, key, default=None):
+        f = self._find(key)
+        if f is None:
+            return default
+        return dict.__getitem__(self, f[1]) if f[0] == "c" else self._sym[f[1]][1]
+
+    def __setitem__(self, key, value):
+        f = self._find(key)
+        if f is not None:
+            if f[0] == "c":
+                dict.__setitem__(self, f[1], value)
+            else:
+                self._sym[f[1]][1] = value
+        elif _has_sym(key):
+            self._sym.append([key, value])
+        else:
+            dict.__setitem__(self, key, value)
+
+    def setdefault(self, key, default=None):
+        f = self._find(key)
+        if f is None:
+            self[key] = default
+            return default
+        return dict.__getitem__(self, f[1]) if f[0] == "c" else self._sym[f[1]][1]
+
+    def pop(self, key, *d):
+        f = self._find(key)
+        if f is None:
+            if d:
+                return d[0]
+            raise KeyError(key)
+        if f[0] == "c":
+            return dict.pop(self, f[1])
+        return self._sym.pop(f[1])[1]
+
+    def __delitem__(self, key):
+        self.pop(key)
+
+    def __len__(self):
+        return dict.__len__(self) + len(self._sym)
+
+    def __bool__(self):
+        return len(self) > 0
+
+    def __iter__(self):
+        return iter(self.keys())
+
+    def keys(self):
+        return list(dict.keys(self)) + [k for k, _ in self._sym]
+
+    def values(self):
+        return list(dict.values(self)) + [v for _, v in self._sym]
+
+    def items(self):
+        return list(dict.items(self)) + [(k, v) for k, v in self._sym]
+
+    def update(self, *a, **k):
+        for kk, vv in SymDict(*a, **k).items():
+            self[kk] = vv
+
+    def copy(self):
+        return SymDict(self.items())
+
+    def __eq__(self, o):
+        if not isinstance(o, dict) or len(o) != len(self):
+            return False
+        return all(k in o and o[k] == v for k, v in self.items())
+
+    def __ne__(self, o):
+        return not self.__eq__(o)
+
+    def __repr__(self):
+        return "SymDict(%r)" % (self.items(),)
+
+
+class _DictMeta(type):
+    def __instancecheck__(cls, obj):
+        return isinstance(obj, builtins.dict)
+
+    def __subclasscheck__(cls, sub):
+        return issubclass(sub, builtins.dict)
+
+
+class sym_dict(metaclass=_DictMeta):
+    """``dict`` inside desugared cloned code"""
+
+    fromkeys = builtins.dict.fromkeys
+
+    def __new__(cls, *a, **k):
+        return SymDict(*a, **k)
+
+
+class _Desugar(ast.NodeTransformer):
+    """set/dict displays and comprehensions -> calls of the (shimmed) builtins, so that
+    collections of symbolic values are equality-based instead of hashing (= concretising)."""
+
+    def visit_SetComp(self, node):
+        self.generic_visit(node)
+        return ast.copy_location(ast.Call(ast.Name("set", ast.Load()), [ast.ListComp(node.elt, node.generators)], []), node)
+
+    def visit_Set(self, node):
+        self.generic_visit(node)
+        return ast.copy_location(ast.Call(ast.Name("set", ast.Load()), [ast.List(node.elts, ast.Load())], []), node)
+
+    def visit_DictComp(self, node):
+        self.generic_visit(node)
+        pair = ast.Tuple([node.key, node.value], ast.Load())
+        return ast.copy_location(ast.Call(ast.Name("dict", ast.Load()), [ast.ListComp(pair, node.generators)], []), node)
+
+    def visit_Dict(self, node):
+        self.generic_visit(node)
+        if any(k is None for k in node.keys):
+            return node
+        pairs = [ast.Tuple([k, v], ast.Load()) for k, v in zip(node.keys, node.values)]
+        return ast.copy_location(ast.Call(ast.Name("dict", ast.Load()), [ast.List(pairs, ast.Load())], []), node)
+
+
+def desugared_code(f):
+    """code object of f recompiled from its *current source* with set/dict displays desugared;
+    None when that is not possible (closures, lambdas, unavailable source)."""
+    if f.__closure__ or f.__name__ == "<lambda>":
+        return None
+    try:
+        src = textwrap.dedent(inspect.getsource(f))
+        tree = ast.parse(src)
+    except (OSError, TypeError, SyntaxError, IndentationError):
+        return None
+    fn = tree.body[0]
+    if not isinstance(fn, (ast.FunctionDef,)) or fn.name != f.__name__:
+        return None
+    fn.decorator_list = []
+    for a in list(fn.args.defaults) + [d for d in fn.args.kw_defaults if d is not None]:
+        pass
+    # defaults/annotations are taken from the original function object, not re-evaluated
+    fn.args.defaults = [ast.Constant(None) for _ in fn.args.defaults]
+    fn.args.kw_defaults = [None if d is None else ast.Constant(None) for d in fn.args.kw_defaults]
+    fn.returns = None
+    for a in fn.args.args + fn.args.kwonlyargs + fn.args.posonlyargs + [x for x in (fn.args.vararg, fn.args.kwarg) if x]:
+        a.annotation = None
+    tree = ast.fix_missing_locations(_Desugar().visit(tree))
+    ast.increment_lineno(tree, f.__code__.co_firstlineno - 1)
+    try:
+        mod_code = compile(tree, f.__code__.co_filename, "exec")
+    except (SyntaxError, ValueError):
+        return None
+    for c in mod_code.co_consts:
+        if isinstance(c, types.CodeType) and c.co_name == f.__name__:
+            if c.co_freevars:
+                return None
+            return c
+    return None
 
 
 class _SetMeta(type):
@@ -363,13 +634,14 @@ class _ModView:
 
 
 class World:
-    def __init__(self, modules, symbolic=True, extra=None, extra_by_module=None, nodes=False):
+    def __init__(self, modules, symbolic=True, extra=None, extra_by_module=None, nodes=False, desugar=()):
         """modules: module names whose functions are cloned.  extra: names shadowed in every
         cloned namespace (stubs/recorders) -- also seen by function-local imports.
         extra_by_module: {module: {name: obj}}.  nodes: expression classes resolve to
         symx.nodes class proxies (symbolic nodes instead of content-hashed singletons)."""
         self.symbolic = symbolic
         self.space = None
+        self.desugar = set(desugar) if symbolic else set()  # module names whose functions are recompiled desugared
         self.names = list(modules)
         self.mods = {n: importlib.import_module(n) for n in self.names}
         self.extra = dict(extra or {})
@@ -379,6 +651,8 @@ class World:
         bi = dict(builtins.__dict__)
         if symbolic:
             bi.update(SHIM_BUILTINS)
+            if self.desugar:
+                bi["dict"] = sym_dict
         bi["__import__"] = self._import
         self.builtins = bi
         if nodes:
@@ -437,7 +711,10 @@ class World:
             return v
         key = id(v)
         if key not in self._clones:
-            f = types.FunctionType(v.__code__, self.ns[v.__module__], v.__name__, v.__defaults__, v.__closure__)
+            code = v.__code__
+            if v.__module__ in self.desugar:
+                code = desugared_code(v) or code
+            f = types.FunctionType(code, self.ns[v.__module__], v.__name__, v.__defaults__, v.__closure__)
             f.__kwdefaults__ = v.__kwdefaults__
             f.__qualname__ = v.__qualname__
             f.__doc__ = v.__doc__
